@@ -14,6 +14,7 @@ import (
 	"github.com/NethermindEth/juno/feed"
 	"github.com/NethermindEth/juno/utils/log"
 	"github.com/NethermindEth/juno/zzverif/vx"
+	"github.com/sourcegraph/conc/stream"
 )
 
 type (
@@ -106,13 +107,44 @@ func VxC06PipelineRun() {
 	} else {
 		vx.Assert(len(announced) == 0, "engine:no-reorg-announced-without-a-revert")
 	}
+	// Confinement: between two restarts of the streams, every change of the local chain - store or revert - is
+	// made by one goroutine (the callback runner of the verifier stream). That is what orders a revert behind
+	// every store queued before it, and what makes the one schedule explored here representative: a revert
+	// issued from another goroutine could run between a block's commit and its new-head notification.
+	for i := 1; i < len(vxChainWriters); i++ {
+		if vxStreamEpochAt(i) == vxStreamEpochAt(i-1) {
+			vx.Assert(vxChainWriters[i] == vxChainWriters[i-1], "engine:chain-changes-are-confined-to-one-goroutine-per-stream-generation")
+		}
+	}
 	// every stored block extended the head of that moment: numbers are consecutive per segment
 	for i := 1; i < len(vxStored); i++ {
 		vx.Assert(vxStored[i] == vxStored[i-1]+1, "engine:stored-blocks-are-consecutive")
 	}
 }
 
+// vxChainWriters: ids of the goroutines that changed the local chain (Store / RevertHead), in order, and the
+// stream generation (number of setupWorkers calls so far) each change happened in.
+var vxChainWriters []int
+var vxChainWriterEpoch []int
+var vxStreamEpoch int
+
+func vxStreamEpochAt(i int) int { return vxChainWriterEpoch[i] }
+
+// setupWorkers as in the source for tip mode (one fetch worker), counting the stream generations.
+func vxSetupWorkers(s *Synchronizer) (*stream.Stream, *stream.Stream) {
+	vxStreamEpoch++
+	return stream.New().WithMaxGoroutines(1), stream.New().WithMaxGoroutines(1)
+}
+
+func vxPipeRevertHead(b *blockchainT) error {
+	vxChainWriters = append(vxChainWriters, vx.GoroutineID())
+	vxChainWriterEpoch = append(vxChainWriterEpoch, vxStreamEpoch)
+	return vxRevertHead(b)
+}
+
 func vxPipeStore(b *blockchainT, blk *core.Block, c *core.BlockCommitments, su *core.StateUpdate, cl map[feltT]core.ClassDefinition) error {
+	vxChainWriters = append(vxChainWriters, vx.GoroutineID())
+	vxChainWriterEpoch = append(vxChainWriterEpoch, vxStreamEpoch)
 	err := vxStore(b, blk, c, su, cl)
 	if err == nil && len(vxLocal) == len(vxPipeTarget) {
 		same := true
@@ -133,8 +165,10 @@ func vxSetupPipeline() (*Synchronizer, *vxPipeSource, int) {
 	vx.Stub(bc+"Height", vxHeight)
 	vx.Stub(bc+"BlockHeaderByNumber", vxHeaderByNumber)
 	vx.Stub(bc+"HeadsHeader", vxHeadsHeader)
-	vx.Stub(bc+"RevertHead", vxRevertHead)
+	vx.Stub(bc+"RevertHead", vxPipeRevertHead)
 	vx.Stub(bc+"Store", vxPipeStore)
+	vx.Stub("(*github.com/NethermindEth/juno/sync.Synchronizer).setupWorkers", vxSetupWorkers)
+	vxChainWriters, vxChainWriterEpoch, vxStreamEpoch = nil, nil, 0
 	vx.Stub(bc+"SanityCheckNewHeight", vxSanity)
 	vxReverted, vxStored, vxNewHeads, vxReorgs = nil, nil, nil, nil
 	vxVerified = map[uint64]bool{}
